@@ -692,6 +692,16 @@ def verify_contract(world, c, tier="quick", loop_support=None, known=None, only_
                 covers["returns"] += 1
                 av["result"] = pr.value
                 proved_so_far = []
+                rs_ = c.returns
+                if isinstance(rs_, S.Shape) and rs_.kind in ("int", "real", "bool", "str"):
+                    # the contract declares a scalar result: None is a failed obligation, and an
+                    # optional value must be present (the clauses then speak about its value)
+                    if pr.value is None:
+                        obls.append(Obl(f"post:result-is-not-None@{ptag}", pr.pc, z3.BoolVal(False), "post", k, pr.args, {"result": pr.value}))
+                        continue
+                    if isinstance(pr.value, V.Opt):
+                        obls.append(Obl(f"post:result-is-not-None@{ptag}", pr.pc, to_bool_term(V.Sym(pr.value.present, "bool")), "post", k, pr.args, {"result": pr.value}))
+                        av["result"] = pr.value.value
                 for nm, cl in c.ensures.items():
                     note = None
                     try:
